@@ -95,7 +95,13 @@ def generate(rng, tier, idx):
         up = "../" if doc["path"].startswith("sub/") else "./"
         cands = [up + w["path"] for w in ws]
         if mode["overlay"]:
-            cands += [up + d2["path"] for d2 in docs if d2 is not doc and d2["kind"] == "file"]
+            others = [up + d2["path"] for d2 in docs if d2 is not doc and d2["kind"] == "file"]
+            if others and rng.chance(60):
+                # documents importing documents: prefer the next one, so that chains a -> m -> x come about
+                k = docs.index(doc)
+                nxt = docs[(k + 1) % len(docs)]
+                return [up + nxt["path"]] if (nxt is not doc and nxt["kind"] == "file") else others
+            cands += others
         return cands
 
     for d in docs:
@@ -180,7 +186,11 @@ def generate(rng, tier, idx):
             if i in state and not mode["protocol"]:
                 k = "change"
             else:
-                if docs[i].get("disk_text") is not None and rng.chance(50):
+                if docs[i].get("disk_text") is not None and mode["overlay"] and rng.chance(35):
+                    # unsaved: the bottom half of the file deleted in the editor
+                    lines_ = docs[i]["disk_text"].split("\n")
+                    cls, text = "disk_text_top_half", "\n".join(lines_[:max(1, len(lines_) // 2)])
+                elif docs[i].get("disk_text") is not None and rng.chance(50):
                     cls, text = "disk_text", docs[i]["disk_text"]
                 else:
                     cls, text = gen_ucg.gen_text(rng, imports_for(docs[i]), True, exports_for(docs[i]))
@@ -188,6 +198,8 @@ def generate(rng, tier, idx):
                 state[i] = text
                 last_text[i] = text
                 hot[i] = list(gen_ucg.LAST_MUTATION_SPOTS) if cls.startswith("mutated") else []
+                if (mode["overlay"] or mode["disk"]) and rng.chance(25):
+                    session.append({"m": "wssym", "query": ""})     # look at the whole index right after it changed
                 continue
         if k == "change":
             i = rng.choice(opened)
@@ -208,6 +220,8 @@ def generate(rng, tier, idx):
             if texts:
                 state[i] = texts[-1]
                 last_text[i] = texts[-1]
+            if (mode["overlay"] or mode["disk"]) and rng.chance(25):
+                session.append({"m": "wssym", "query": ""})
             continue
         if k == "close":
             i = rng.choice(opened)
